@@ -196,8 +196,33 @@ func (m *model) discoverLoop() error {
 		return fmt.Errorf("scheduler loop: expected exactly one list.New() (ready list), found %d", len(lists))
 	}
 	m.readyList = lists[0]
-	// enqueue channel local
+	// enqueue channel local: the loop-carried value (header phi) that the enqueue arm receives from; a value
+	// derived from it inside the iteration (e.g. conditionally replaced by nil) is traced back to it and S19
+	// reports the extra gating
 	m.enqPhi = m.armEnq.state.Chan
+	m.enqDirect = true
+	for v, d := m.armEnq.state.Chan, 0; d < 4; d++ {
+		p, ok := v.(*ssa.Phi)
+		if !ok {
+			break
+		}
+		if p.Block() == m.header {
+			m.enqPhi = p
+			break
+		}
+		m.enqDirect = false
+		var next ssa.Value
+		for _, e := range p.Edges {
+			if !ssax.IsNilConst(e) {
+				next = e
+			}
+		}
+		if next == nil {
+			break
+		}
+		v = next
+		m.enqPhi = v
+	}
 	// counters via the State value handed to Emit
 	if err := m.discoverCounters(); err != nil {
 		// not fatal: only the rules about the counters (S17 completion exit, S25, S26, S27) are undecided
